@@ -29,6 +29,28 @@ def chain_of(body, local, limit=24):
         limit -= 1
         ds = body.defs().get(cur, [])
         ds = [d for d in ds if d[1] == 'call' or not d[2]['lhs']['p']]
+        if 2 <= len(ds) <= 4 and limit > 4:
+            # a value assigned on several paths (`let r = match .. { A => call(..), B => Err(..) }`): the chain is the union of the chains of
+            # the alternatives (a branch on it is a branch on the outcome of whichever call produced it)
+            for b_, kind_, x_ in ds:
+                if kind_ == 'call':
+                    calls.append(x_)
+                    for a in x_['args']:
+                        if op_local(a) is not None:
+                            places.append(canon(body, op_place(a)))
+                            if method(cname(x_)) in TRANSPARENT or cname(x_).endswith('::branch'):
+                                n2, c2, p2 = chain_of(body, op_local(a), limit // 2)
+                                calls.extend(c for c in c2 if not any(c is y for y in calls))
+                                places.extend(p2)
+                            break
+                else:
+                    for p_ in body.rvalue_places(x_['rv']):
+                        places.append(canon(body, p_))
+                        if x_['rv']['rk'] in ('use', 'ref', 'discriminant', 'cast') and p_['l'] not in seen:
+                            n2, c2, p2 = chain_of(body, p_['l'], limit // 2)
+                            calls.extend(c for c in c2 if not any(c is y for y in calls))
+                            places.extend(p2)
+            break
         if len(ds) != 1:
             break
         b, kind, x = ds[0]
@@ -121,6 +143,11 @@ def correlated_origin(body, g):
             c = cname(x)
             if c.endswith('::branch'):
                 via_branch = 'result' if 'Result' in c else 'option'
+                cur = op_local(x['args'][0])
+                continue
+            if c == 'std::result::Result::<T, E>::ok' and via_branch == 'option':
+                # `res.ok()?`: Some <-> Ok, None <-> Err
+                via_branch = 'result'
                 cur = op_local(x['args'][0])
                 continue
             return None
